@@ -2090,6 +2090,12 @@ func (c *Conn) bufferHandshakeRecord(
 	}
 
 	for out, epoch := c.fragmentBuffer.Pop(); out != nil; out, epoch = c.fragmentBuffer.Pop() {
+		if epoch == 0 && c.isHandshakeCompletedSuccessfully() {
+			// Once the handshake has completed nothing new can arrive in the
+			// clear: everything after it is protected. Caching such messages
+			// would let anyone grow the cache for as long as the session lives.
+			continue
+		}
 		header := &handshake.Header{}
 		if err := header.Unmarshal(out); err != nil {
 			c.log.Debugf("%s: handshake parse failed: %s", srvCliStr(dtlsstate.CommonState(c.state).IsClient), err)
